@@ -128,6 +128,9 @@ LAYOUTS = [
     ('elem_comment', dict(open='', close='', sep=', ', colon=': ', elem_comment=True)),
     ('comment_after_open', dict(open=' # c\n ', close='', sep=', ', colon=': ')),
     ('comment_before_close', dict(open='', close=' # c\n', sep=', ', colon=':\n ', trailing=',')),
+    ('comment_after_colon', dict(open='', close='', sep=', ', colon=':  # c\n   ')),
+    ('comment_after_colon_nl', dict(open='\n', close='\n', sep=',  # c\n', colon=': # k\n\n # more\n ', trailing=',')),
+    ('comment_after_comma', dict(open='', close='', sep=',  # c\n  ', colon=': ')),
     ('neg_break', dict(open='', close='', sep=', ', colon=': ', neg_break='\n  ')),
     ('neg_space', dict(open='', close='', sep=',', colon=':', neg_break=' ')),
     ('blank_lines', dict(open='\n\n', close='\n\n', sep=',\n\n', colon=': ')),
@@ -187,7 +190,7 @@ NEAR = [
     '1//2', '2**3', '~1', '1 | 2',
     'foo', 'nan', 'inf', 'true', 'none', 'null', 'NaN', 'x.y', 'float("nan")',
     '[x for x in [1]]', 'int(1)', 'dict()', '[1][0]', "'a'[0]", '{1, 2}', '{1}', 'lambda: 1', "f'a'", "f'{1}'",
-    '+1', '--1', "-'a'", '-None', '-[1]', '-(1)', '-()', '- -1', '-+1',
+    '+1', '--1', "-'a'", '-None', '-[1]', '-(1)', '-()', '- -1', '-+1', '-True', '-False', '- True', '-\\\nTrue',
     '-@c02.g', '-@c02.g()', '- @c02.g()', '-%mac', '- %mac', '-\\\n@c02.g()',
     '[1', '(1', '{1:2', "{'a': [1, 2}", '1]', '1)', '1}', '[1)', '(1]', '{1]', '[(1])', '[[1]',
     '1 2', '[1] x', "'a' 1", '1;', "1 'a'", '[1] [2]', '(1)(2)', '{} {}', "None None", "'a' b'x'",
@@ -424,11 +427,12 @@ def gen_cases(tier):
     for pos in POSITIONS:
       text = place(nm, pos)
       legal, v = legal_python_literal(text)
-      if legal and in_grammar_value(v) and pos != 'top':
+      forced = nm.replace('\\\n', '').replace(' ', '') in ('-True', '-False')   # arithmetic on a keyword, not a literal
+      if legal and in_grammar_value(v) and pos != 'top' and not forced:
         # e.g. '' inside a list gives the legal literal [] — not a near-miss there
         continue
       if legal and pos == 'top' and in_grammar_value(v) and nm.strip() and not set(nm) & set('+*/<~|&'):
-        if nm not in ('1 -2', '1-2', '-(1)', '- -1', '--1', '-()'):
+        if nm not in ('1 -2', '1-2', '-(1)', '- -1', '--1', '-()') and not forced:
           continue
       tags = []
       if nm.lstrip('-\\\n ').startswith(('@', '%')) and nm.startswith('-'):
